@@ -361,12 +361,13 @@ def _max_ecos(s, g):
             continue
         B = np.array(p['B'])
         c = np.array(p['c'])
-        blk = np.zeros((nz + 1, N))
+        k = B.shape[0]                       # B may select some of the components (k x nz)
+        blk = np.zeros((k + 1, N))
         blk[1:, :nz] = -B
         hh = np.concatenate([[p['r']], -B @ c])
         Gs.append(blk)
         hs.append(hh)
-        q.append(nz + 1)
+        q.append(k + 1)
     G = sp.csc_matrix(np.vstack(Gs))
     h = np.concatenate(hs)
     cost = np.zeros(N)
